@@ -11,7 +11,11 @@ Inductive case :=
    whole log it fetched for a cached head at once (all or nothing), which [model_step]
    (entry-wise merge of the replicator route) does not describe: only the specification is
    evaluated; [d_before] is what a restart yields without the hostile heads *)
-| CCached (d : delivery).
+| CCached (d : delivery)
+(* the hostile entry is in the snapshot file loaded by LoadFromSnapshot after a restart (see
+   AccessCorr: the snapshot route): specification only; [d_before] is what the restart yields
+   with the untouched snapshot, the state after is rendered by true content addresses *)
+| CSnapshot (d : delivery).
 
 Definition check (c : case) : bool * bool :=
   match c with
@@ -43,6 +47,12 @@ Definition check (c : case) : bool * bool :=
     (true,
      match target_entry d with
      | Some e => (if genuine (d_cfg d) (d_lid d) e then true else negb (present d)) && frame d
+     | None => true
+     end)
+  | CSnapshot d =>
+    (true,
+     match target_entry d with
+     | Some e => (if genuine (d_cfg d) (d_lid d) e then true else negb (present d)) && frame_load d
      | None => true
      end)
   end.
